@@ -723,6 +723,8 @@ class PEval:
             nd = kw.get("num_dims", self.ev(e.args[1], env) if len(e.args) > 1 else None)
             if isinstance(a, Sym) and nd == 2:
                 return Sym(("merge", a.term))
+            if nd == 1 or a is None:
+                return a  # one leading dimension: nothing to merge
             raise Undecided("merge_leading_dims")
         if fn_text.split(".")[-1] == "split_leading_dim" and e.args:
             a = self.ev(e.args[0], env)
@@ -854,6 +856,12 @@ class PEval:
             if isinstance(x, Sym) and s == 1:
                 return Sym(("flat", x.term))
             raise Undecided("flatten")
+        if fn_text in ("torchutils.merge_leading_dims", "merge_leading_dims") and len(e.args) == 2:
+            x = self.ev(e.args[0], env)
+            k = self.ev(e.args[1], env)
+            if k == 1 or x is None:
+                return x  # one leading dimension: nothing to merge
+            raise Undecided("merge_leading_dims with %r dimensions" % (k,))
         if fn_text in ("super().__init__",):
             return None
         if fn_text in ("nn.ModuleList", "torch.nn.ModuleList"):
@@ -970,6 +978,14 @@ class PEval:
             if name in ("reshape", "view", "flatten") and x.term == ("empty",):
                 return x
             if name in ("reshape", "view"):
+                # x.reshape(y.shape): the shape of another tensor -- no change when it is x's own
+                if len(args) == 1 and isinstance(args[0], tuple) and args[0] and args[0][0] == "shape-of":
+                    if args[0][1] == x.term:
+                        return x
+                    return Sym(("view", x.term, ("shape-of", args[0][1])))
+                # a batch-shaped value reshaped to the leading part of the inputs' shape
+                if len(args) == 1 and isinstance(args[0], tuple) and args[0] and args[0][0] == "shape-part" and args[0][2] in (repr(slice(None, 1, None)),):
+                    return x
                 if len(args) == 2 and isinstance(args[0], Sym) and args[0].term[0] == "dim0" and args[1] == -1:
                     return Sym(x.term if isinstance(x.term, tuple) and x.term[0] == "flat" else ("flat", x.term))
                 if len(args) == 2 and args[0] == -1 and isinstance(args[1], tuple) and args[1][0] == "star" and isinstance(args[1][1], Shape):
